@@ -92,6 +92,32 @@ Theorem vector_order_respected : forall order m,
 Proof. exact pick_fps. Qed.
 Print Assumptions vector_order_respected.
 
+(* Prometheus query responses (writeResponse -> writeMatrix / writeVector / writeScalar) and PromError:
+   any list of series, any label slices (duplicate names included), any number of points *)
+Theorem doc_wellformed_prom_matrix : forall ss, series_nums_ok ss = true ->
+  parse_bytes (render (enc_prom_matrix ss)) = Some (doc_prom_matrix ss).
+Proof. exact prom_matrix_bytes. Qed.
+Print Assumptions doc_wellformed_prom_matrix.
+
+Theorem doc_wellformed_prom_vector : forall ss, series_nums_ok ss = true ->
+  parse_bytes (render (enc_prom_vector ss)) = Some (doc_prom_vector ss).
+Proof. exact prom_vector_bytes. Qed.
+Print Assumptions doc_wellformed_prom_vector.
+
+Theorem doc_wellformed_prom_scalar : forall p, num_ok (ps_t p) = true ->
+  parse_bytes (render (enc_prom_scalar p)) = Some (doc_prom_scalar p).
+Proof. exact prom_scalar_bytes. Qed.
+Print Assumptions doc_wellformed_prom_scalar.
+
+Theorem doc_wellformed_prom_error : forall msg,
+  parse_bytes (render (enc_prom_error msg)) = Some (doc_prom_error msg).
+Proof. exact prom_error_bytes. Qed.
+Print Assumptions doc_wellformed_prom_error.
+Example prom_guard_met :
+  series_nums_ok [{| pr_lbls := [("a", "b"); ("a", "c")]; pr_pts := [{| ps_t := "1.5"; ps_v := "NaN" |}; {| ps_t := "1e-07"; ps_v := "2" |}] |};
+                  {| pr_lbls := []; pr_pts := [] |}] = true.
+Proof. reflexivity. Qed.
+
 (* list endpoints. Tempo tag names / tag values (TempoController.Tags, Values) and Loki/Prometheus
    labels / label values (GenericLabelReq): for every list of byte strings the body is one document
    holding the (sanitised) strings in order *)
